@@ -3,13 +3,15 @@
    winit, wstep, send_ready, recv_result) and prints, per line, the observation of the step and
    the state of the four links afterwards, in the format of the harness's impl.txt:
 
-     <obs> | ready=<ok|pend|err|gone> | sb=<..> rb=<..> bs=<..> br=<..> | cs=<st> cr=<st>
+     <obs> | sb=<..> rb=<..> bs=<..> br=<..> | cs=<st> cr=<st>
 
    cases.txt lines:
      new <seed> <cap> <same>     a new established channel, receiver capacity <cap>; <same>=1: both
                                  ends on one client/connection
-     send <v> | recv | closeS | closeR | dropS | dropR | brokerS | brokerR | clientS | clientR
-   <obs>: send -> sent|pend|err; recv -> item:<v>|end|pend; otherwise "-"; a line the model
+     send <v> | readyS | probeS | recv | closeS | closeR | dropS | dropR | brokerS | brokerR |
+     clientS | clientR
+   <obs>: send -> sent|pend|err; readyS (poll_send_ready alone) -> ok|pend|err; probeS
+   (poll_receiver_closed) -> closed|pend; recv -> item:<v>|end|pend; otherwise "-"; a line the model
    refuses (flag set) is printed as "!cut", "!overflow", "!panic:<site>", "!unexpected".
    Links: comma-separated, "-" when empty; sb: i<v> c; rb: a<n> c; bs: a<n> pc r<ok|inv|for>;
    br: i<v> pc r<ok|inv|for>.  cs/cr: none|pend|ok|err|gone (the end's close future). *)
@@ -53,6 +55,14 @@ let () =
              let r = send_ready !w in
              step (ASend (n_of_string v));
              (match r with RdOk -> "sent" | RdPending -> "pend" | RdErr -> "err")
+         | ["readyS"] ->
+             let r = send_ready !w in
+             step APollReady;
+             (match r with RdOk -> "ok" | RdPending -> "pend" | RdErr -> "err")
+         | ["probeS"] ->
+             let r = receiver_closed !w in
+             step APollClosed;
+             if r then "closed" else "pend"
          | ["recv"] ->
              let r = recv_result !w in
              step ARecv;
@@ -75,10 +85,7 @@ let () =
            if x.f_cut then "!cut"
            else if x.f_ovf then "!overflow"
            else (match x.f_panic with Some s -> "!panic:" ^ sn s | None -> if x.f_unexp then "!unexpected" else obs) in
-         let ready =
-           if !drop_s then "gone"
-           else match send_ready x with RdOk -> "ok" | RdPending -> "pend" | RdErr -> "err" in
-         Printf.fprintf oc "%s | ready=%s | sb=%s rb=%s bs=%s br=%s | cs=%s cr=%s\n" obs ready
+         Printf.fprintf oc "%s | sb=%s rb=%s bs=%s br=%s | cs=%s cr=%s\n" obs
            (sb x.q_sb) (rb x.q_rb) (bs x.q_bs) (br x.q_br)
            (close_st !drop_s x.sd_res) (close_st !drop_r x.rv_res)
        end
